@@ -132,8 +132,7 @@ def specRequest (i : IfaceSpec) (m : MethodSpec) (args : Args) : Request :=
 Structural conditions under which the property's words have one meaning (`Out` otherwise):
 parameter names distinct; at most one context parameter; no slice/func parameter ("unsupported
 param type" is a clean Fatal); at most one struct parameter ("ambiguous body binding" is a clean
-Fatal); alias keys distinct and naming scalar parameters; alias values distinct (Q8: otherwise the
-code's choice depends on Go's map order) ; every placeholder stands for a non-pointer scalar
+Fatal); alias keys distinct and naming scalar parameters; every placeholder stands for a non-pointer scalar
 parameter (a placeholder naming an aliased parameter by its Go name has no agreed meaning); every
 `{` of the path starts a placeholder; struct field names distinct; no qualified scalar on a body verb. -/
 
@@ -170,18 +169,24 @@ def placeholderOk (m : MethodSpec) (n : String) : Bool :=
   (m.alias.any (fun kv => kv.2 == n) || !m.alias.any (fun kv => kv.1 == n)) &&
   m.params.any (fun q => q.name == p && isScalarParam q && !q.ptr)
 
-def methodStructOk (m : MethodSpec) : Bool :=
+/-- two parameters with the same alias: the directive is rejected with a diagnostic (region `Rejected`:
+    the property says nothing about requests, the check asserts the clean failure — exit 1, no file) -/
+def aliasInjective (m : MethodSpec) : Bool := distinct (m.alias.map (·.2))
+
+def methodShapeOk (m : MethodSpec) : Bool :=
   distinct (m.params.map (·.name)) &&
   (m.params.filter isCtxParam).length ≤ 1 &&
   m.params.all (fun p => p.kind != .unsupported) &&
   (m.params.filter (fun p => isStructParam p || isQualOther p)).length ≤ 1 &&
-  distinct (m.alias.map (·.1)) && distinct (m.alias.map (·.2)) &&
+  distinct (m.alias.map (·.1)) &&
   m.alias.all (fun kv => m.params.any (fun p => p.name == kv.1 && isScalarParam p)) &&
   m.alias.all (fun kv => !kv.2.isEmpty) &&
   pathClean m.path &&
   (placeholders m.path).all (fun n => placeholderOk m (String.ofList n)) &&
   m.params.all (fun p => distinct ((fieldsOf p).map (·.name)) && (fieldsOf p).all (fun f => !(fieldKey f).isEmpty)) &&
   !(m.verb.hasBody && m.params.any isQualOther)
+
+def methodStructOk (m : MethodSpec) : Bool := methodShapeOk m && aliasInjective m
 
 /-- F_ptrDict (Q5): a `*map[…]…` parameter on GET/DELETE — inside the quantifier (pointer × map; the
     repo's own fixture has one); the generated `range` does not compile -/
@@ -220,11 +225,14 @@ def F_pathArgBrace (i : IfaceSpec) (calls : List Call) : Bool :=
     | none => false
     | some m => (placeholders m.path).any (fun n => (argText c.args (resolve m (String.ofList n))).contains '{'))
 
-def structOk (i : IfaceSpec) : Bool :=
-  i.methods.all methodStructOk && distinct (i.methods.map (·.name)) && !i.methods.isEmpty
+def shapeOk (i : IfaceSpec) : Bool :=
+  i.methods.all methodShapeOk && distinct (i.methods.map (·.name)) && !i.methods.isEmpty
+
+def structOk (i : IfaceSpec) : Bool := shapeOk i && i.methods.all aliasInjective
 
 def region (i : IfaceSpec) (calls : List Call) : String :=
-  if !structOk i then "Out"
+  if !shapeOk i then "Out"
+  else if !i.methods.all aliasInjective then "Rejected"
   else if F_ptrDict i then "F_ptrDict"
   else if F_twoDicts i then "F_twoDicts"
   else if F_qualScalar i then "F_qualScalar"
